@@ -920,7 +920,8 @@ class C05(Check):
         if "config_error" in io["out"]:
             return f"model accepts a declaration the code rejects ({io['out']['config_error']})" if mo["wf"] else None
         if not mo["wf"]:
-            return None          # outside the modelled fragment (counted in the distribution)
+            # the theorems' hypothesis `Parser.wf` is meant to be exactly "ClassParser.setup raises no ConfigError"
+            return "the code accepts a declaration the model's well-formedness rejects"
         keys = mo["_keys"]
         for k in keys:           # the theorems' hypothesis LowerLaws, on the keys of this case
             if k.lower().lower() != k.lower() or (k.islower() and k.lower() != k):
